@@ -165,15 +165,18 @@ def check(run: Run, ctx) -> None:
             elif len(run.violations) < 5:
                 run.violation("input", {"doc": case["doc"], "package": case["package"], "core": case.get("core"), "warm_doc": case["warm_doc"]}, observed=msg,
                               expected="byte-identical trees for every hash seed, process state and output root", what=msg[:400])
-    # witness of F18 (deterministic document with three undeclared path variables)
-    if known.listed("F18"):
-        wd = {"openapi": "3.0.3", "info": {"title": "W", "version": "1"}, "components": {"schemas": {}},
-              "paths": {"/a/{x}/b/{y}/c/{z}/d/{w}": {"get": {"operationId": "getIt", "responses": {"200": {"description": "ok"}}}}}}
-        wres = e2e.run_cases("vf.props.C09:case_fn", [{"id": "w", "doc": wd, "warm_doc": wd, "package": "pkg.client", "core": None}], workers=1)[0]
-        trees = {json.dumps(o.get("tree"), sort_keys=True) for k, o in wres.items() if k.startswith("h") and isinstance(o, dict)}
-        run.cov.setdefault("known_findings_replayed", {})["F18"] = len(trees) > 1
-        if len(trees) > 1:
+    # the former witness of F18 (four undeclared path variables): always replayed - a regression is a violation now that F18 is repaired
+    wd = {"openapi": "3.0.3", "info": {"title": "W", "version": "1"}, "components": {"schemas": {}},
+          "paths": {"/a/{x}/b/{y}/c/{z}/d/{w}": {"get": {"operationId": "getIt", "responses": {"200": {"description": "ok"}}}}}}
+    wres = e2e.run_cases("vf.props.C09:case_fn", [{"id": "w", "doc": wd, "warm_doc": wd, "package": "pkg.client", "core": None}], workers=1)[0]
+    trees = {json.dumps(o.get("tree"), sort_keys=True) for k, o in wres.items() if k.startswith("h") and isinstance(o, dict)}
+    run.cov.setdefault("known_findings_replayed", {})["F18"] = len(trees) > 1
+    if len(trees) > 1:
+        if known.listed("F18"):
             run.known("F18", known.entries["F18"]["what"])
+        else:
+            run.violation("input", {"doc": wd, "package": "pkg.client", "core": None, "warm_doc": wd}, observed=f"{len(trees)} different trees over the hash seeds",
+                          expected="byte-identical trees for every hash seed", what="undeclared path variables: the generated tree depends on PYTHONHASHSEED")
     known.report_unreplayed()
 
 
